@@ -193,6 +193,14 @@ def veq(interp, env, a, b):
         return TOP
 
 
+def new_ref(interp, x):
+    """a reference to a temporary holding x (for closures that take their argument by reference)"""
+    if isinstance(x, (Ref, HRef)):
+        return x
+    tmp = new_vec(interp, [x])
+    return HRef(tmp.vid, 0)
+
+
 def rank(interp, env, v):
     v = load(interp, env, v)
     if isinstance(v, Sym):
@@ -836,6 +844,37 @@ def _coll_oracle(interp, env, f, args, t, bb, path):
             return Agg("itertools-chunks", None, None, [It(xs_[i_:i_ + args[1]]) for i_ in range(0, len(xs_), args[1])])
         if dk == "itertools::Itertools::collect_vec":
             return new_vec(interp, list(it.items))
+        if dk in ("itertools::Itertools::sorted_by_key", "itertools::Itertools::sorted_by_cached_key", "itertools::Itertools::sorted_unstable_by_key") and len(args) == 2:
+            xs_ = list(it.items)
+            ks_ = []
+            for x in xs_:
+                k_ = _call1(interp, args[1], [new_ref(interp, x)])
+                r_ = rank(interp, env, k_) if k_ is not None else None
+                if r_ is None:
+                    return TOP
+                ks_.append(r_)
+            return It([xs_[i_] for i_ in sorted(range(len(xs_)), key=lambda i_: ks_[i_])])      # stable, as itertools' sorted_by_key
+        if dk in ("itertools::Itertools::sorted", "itertools::Itertools::sorted_unstable") and len(args) == 1:
+            xs_ = list(it.items)
+            ks_ = [rank(interp, env, x) for x in xs_]
+            if any(k_ is None for k_ in ks_):
+                return TOP
+            return It([xs_[i_] for i_ in sorted(range(len(xs_)), key=lambda i_: ks_[i_])])
+        if dk in ("itertools::Itertools::group_by", "itertools::Itertools::chunk_by") and len(args) == 2:
+            groups_ = []          # consecutive items with equal keys
+            for x in it.items:
+                k_ = _call1(interp, args[1], [new_ref(interp, x)])
+                if k_ is None:
+                    return TOP
+                if groups_:
+                    same_ = veq(interp, env, groups_[-1][0], k_)
+                    if same_ is TOP:
+                        return TOP
+                    if same_:
+                        groups_[-1][1].append(x)
+                        continue
+                groups_.append((k_, [x]))
+            return Agg("itertools-chunks", None, None, [Agg("tuple", None, None, [k_, It(g_)]) for k_, g_ in groups_])
         if nm in ("remainder", "into_remainder") and "remainder" in it.extra:
             return it.extra["remainder"]
         if nm == "by_ref":
